@@ -511,8 +511,12 @@ class CompilerPassGenerateCode(CompilerPass):
             for i, arg in enumerate(node.args.args):
                 arg_sym = self.data.get_sym_data(arg)
                 calling_arg = calling_node.args[i]._ndata.result
-                if arg_sym.is_overwritten:
+                if arg_sym.is_overwritten or (
+                    isinstance(calling_arg, IC10Register)
+                    and any(node.parent_of(w) for w in calling_arg.nodes_writing)
+                ):
                     # need to copy argument to a register, as it is overwritten in the function
+                    # (or the function assigns the global variable that was passed)
                     arg_sym.code_expr = self.get_register_name()
                     data.add(IC10("move", [calling_arg], arg_sym))
                 else:
